@@ -1574,6 +1574,11 @@ def build_cases(tier="quick"):
     from contracts import c20
 
     ref += rewrap(PROP, c20.fork_cases(), "transaction-start-state", lambda c: c.unit.endswith("sevm.SEVM.run_message"))
+    # CODECOPY / EXTCODECOPY copy the window [start, start+size) of the code read as a zero-extended array (C19's unit;
+    # seed C01-12: a window straddling the end came back short, so the old memory showed through)
+    from contracts import c19
+
+    ref += rewrap(PROP, c19.decode_cases(), "codecopy-window", lambda c: c.unit.endswith("contract.Contract.slice"))
     return stack_cases() + limit_cases() + env_cases() + memory_cases() + halt_cases() + sha3_cases() + returndata_cases() + ext_cases() + deviation_cases() + ref
 
 
